@@ -1459,11 +1459,13 @@ impl Manager {
             {
                 let (_base_path, restant) =
                     req_path.split_at(REL_BASE_URL.len());
-                let trace_id = if restant.contains("/traces/") {
-                    restant.split_at("/traces/".len()).1.parse::<u8>().ok()
-                } else {
-                    None
-                };
+                // Only "/status/graph/traces/<id>" selects a trace. The old
+                // code split the remainder at byte 8 whenever it merely
+                // contained "/traces/", which is not a character boundary for
+                // e.g. "/status/graphaaaaaaa%E2%82%AC/traces/".
+                let trace_id = restant
+                    .strip_prefix("/traces/")
+                    .and_then(|id| id.parse::<u8>().ok());
                 let svg =
                     graph_svg_data.load().1.get_svg(tracer.clone(), trace_id);
                 let traces = if let Some(trace_id) = trace_id {
